@@ -31,21 +31,35 @@ pub fn program_strategy(fam: &Arc<Family>, rev: usize, force_panic: Option<Panic
     proptest::collection::vec(op, 1..=max).boxed()
 }
 
-#[derive(Clone, Debug)]
+#[derive(Clone, Debug, Serialize, Deserialize)]
 pub struct RunResult {
     /// per op: result of a call (None for connect / drop)
     pub outs: Vec<Option<RetOut>>,
     /// per panicking call: result of repeating the call without the scripted panic
     pub after_panic: Vec<(usize, RetOut)>,
     pub events: Vec<Ev>,
-    pub ledger: Vec<abirt::TokenRec>,
+    pub ledger: Vec<TokenRec>,
     pub connect_errors: Vec<String>,
     /// per call op: bit mask of arguments passable by reference (ABI mode)
     pub by_ref: Vec<Option<Vec<bool>>>,
 }
 
-pub fn run_program(fam: &Family, rev: usize, drv: &dyn Driver, ops: &[Op], mode: ConnMode) -> RunResult {
+#[derive(Clone, Debug, Serialize, Deserialize)]
+pub struct TokenRec {
+    pub label: String,
+    pub drops: u32,
+}
+
+pub type Srv<'a> = crate::iso::Server<'a, (Vec<Op>, bool), RunResult>;
+
+/// programs run in a child process (crash / hang of the code under test is captured as data)
+pub fn server<'a>(c: &'a Case<'a>) -> Srv<'a> {
+    crate::iso::Server::new(20_000, move |(ops, abi): (Vec<Op>, bool), fd| run_program(c.fam, c.rev, c.drv, &ops, if abi { ConnMode::Abi } else { ConnMode::Direct }, fd))
+}
+
+pub fn run_program(fam: &Family, rev: usize, drv: &dyn Driver, ops: &[Op], mode: ConnMode, sink_fd: i32) -> RunResult {
     let ctx = Ctx::new();
+    ctx.sink_fd.store(sink_fd, std::sync::atomic::Ordering::Relaxed);
     let mut conns: Vec<Box<dyn Conn>> = vec![];
     let mut res = RunResult { outs: vec![], after_panic: vec![], events: vec![], ledger: vec![], connect_errors: vec![], by_ref: vec![] };
     let connect = |conns: &mut Vec<Box<dyn Conn>>, res: &mut RunResult| match drv.connect(&ctx, mode) {
@@ -102,7 +116,7 @@ pub fn run_program(fam: &Family, rev: usize, drv: &dyn Driver, ops: &[Op], mode:
     ctx.ev("harness.end", &[], vec![]);
     drop(conns);
     res.events = ctx.events();
-    res.ledger = ctx.ledger();
+    res.ledger = ctx.ledger().into_iter().map(|t| TokenRec { label: t.label, drops: t.drops }).collect();
     res
 }
 
@@ -202,14 +216,55 @@ pub struct Case<'a> {
     pub fam: &'a Arc<Family>,
     pub rev: usize,
     pub drv: &'a dyn Driver,
+    /// may this unit contribute rendered samples to the evidence
+    pub sample: bool,
 }
 
 /// Evaluate all C09 oracles on one program.
-pub fn eval(c: &Case, ops: &[Op], st: &mut Stats, counting: bool) -> Vec<Fail> {
+pub fn eval(c: &Case, srv: &mut Srv, ops: &[Op], st: &mut Stats, counting: bool) -> Vec<Fail> {
+    use crate::iso::Iso;
     let fam = c.fam;
-    let d = run_program(fam, c.rev, c.drv, ops, ConnMode::Direct);
-    let a = run_program(fam, c.rev, c.drv, ops, ConnMode::Abi);
     let mut fails = vec![];
+    let d = match srv.call(&(ops.to_vec(), false)) {
+        Iso::Done(r) => r,
+        other => {
+            fails.push(fail(&[("check", "HARNESS_direct_run_failed")], format!("direct execution did not complete: {:?}", other).chars().take(600).collect(), json!(null)));
+            return fails;
+        }
+    };
+    let a = match srv.call(&(ops.to_vec(), true)) {
+        Iso::Done(r) => r,
+        Iso::Crashed { signal, exit, stderr, streamed } => {
+            let cause = if stderr.contains("memory allocation of") || stderr.contains("capacity overflow") {
+                "absurd_allocation"
+            } else if stderr.contains("non-unwinding panic") || stderr.contains("cannot unwind") {
+                "panic_in_extern_c_function"
+            } else if signal == libc::SIGSEGV || signal == libc::SIGBUS {
+                "memory_fault"
+            } else {
+                "other"
+            };
+            let evs: Vec<Ev> = streamed.iter().filter_map(|l| serde_json::from_str(l).ok()).collect();
+            let last = evs.iter().rev().find(|e| !e.k.starts_with("harness")).map(|e| event_class(&e.k)).unwrap_or("none");
+            fails.push(fail(
+                &[("check", "process_abort"), ("cause", cause), ("last_event", last)],
+                format!("the process died while the program ran through the ABI connection (signal {}, exit {}): {}", signal, exit, stderr.trim()),
+                json!({"family": fam.name, "revision": fam.revs[c.rev].module, "signal": signal, "stderr": stderr, "events_before_death": render_events(&evs[evs.len().saturating_sub(12)..])}),
+            ));
+            if counting {
+                st.evaluations += 1;
+            }
+            return fails;
+        }
+        Iso::TimedOut { stderr, .. } => {
+            fails.push(fail(&[("check", "HARNESS_case_timeout")], format!("program did not finish within 20 s through the ABI connection (hang is inconclusive, not a verdict): {}", stderr), json!(null)));
+            return fails;
+        }
+        Iso::Harness(e) => {
+            fails.push(fail(&[("check", "HARNESS_isolation")], e, json!(null)));
+            return fails;
+        }
+    };
     let ctxjson = |extra: Value| json!({"family": fam.name, "revision": fam.revs[c.rev].module, "observed": extra});
 
     // harness self-checks on the direct run (a failure here is a harness problem, not a verdict)
@@ -415,7 +470,7 @@ pub fn eval(c: &Case, ops: &[Op], st: &mut Stats, counting: bool) -> Vec<Fail> {
                 st.nontrivial.insert(fp);
             }
         }
-        if st.samples.len() < 2 && ops.iter().filter(|o| matches!(o, Op::Call { .. })).count() >= 2 {
+        if c.sample && st.samples.len() < 1 && ops.iter().filter(|o| matches!(o, Op::Call { .. })).count() >= 2 {
             st.sample(json!({
                 "interface": render_rev(fam, c.rev),
                 "program": ops.iter().map(render_op).collect::<Vec<_>>(),
